@@ -23,7 +23,8 @@ class ExportConfigFortran(ExportConfig):
 
     def _parse_scalar(self, param, value):
         if isinstance(param, StringType):
-            value = f"\"{str(value)}\""
+            value = str(value).replace("\"","\"\"")   # a quote inside a Fortran string is doubled
+            value = f"\"{value}\""
         elif isinstance(param, BooleanType):
             value = ".true." if value else ".false."
         elif isinstance(param, IntegerType):
